@@ -180,23 +180,23 @@ theorem startClose_q2_gone2 (a : ACfg) (s : St) (t : ATid) (p : AProg) :
   · show (innerStep a { s with evt := some false } .callInitiateClose).gone2 = s.gone2
     rw [h1]
 
-theorem dispHandle2_q2_gone2 (a : ACfg) (s : St) (v : Nat) :
-    (dispHandle2 a s v).q2 = s.q2 ∧ (dispHandle2 a s v).gone2 = s.gone2 := by
-  unfold dispHandle2
-  split
-  · exact ⟨rfl, rfl⟩
-  · exact ⟨rfl, rfl⟩
-  · exact ⟨rfl, rfl⟩
-  · split
-    · exact ⟨rfl, rfl⟩
-    · exact startClose_q2_gone2 a s _ _
-  · exact ⟨rfl, rfl⟩
-  · exact ⟨rfl, rfl⟩
 
 /-! ### the close sequence does not touch the flow -/
 
+theorem d2Return_InvF {a : ACfg} {s : St} (i : InvF a s) : InvF a (d2Return s) := by
+  unfold d2Return
+  split
+  · split
+    · rename_i v _
+      split
+      · exact InvF.of_fcore (fcore_finish2 _ _) ((i.emit2 rfl).emit2 rfl)
+      · exact InvF.of_fcore (s := (s.emit2 (.closeRet (.handler v) .ok)).emit2 (.msgExit v)) rfl ((i.emit2 rfl).emit2 rfl)
+    · exact InvF.of_fcore (fcore_finish2 _ _) ((i.emit2 rfl).emit2 rfl)
+    · exact i
+  · exact i
+
 theorem finishClose_InvF {a : ACfg} {s : St} (i : InvF a s) (t : Sess.Tid) : InvF a (finishClose a s t) :=
-  innerStep_InvF (s := { s with cpc := .finished }) (by fr i) _
+  d2Return_InvF (innerStep_InvF (s := { s with cpc := .finished }) (by fr i) _)
 
 theorem endCb_InvF {a : ACfg} {s : St} (i : InvF a s) (t : Sess.Tid) : InvF a (endCb a s t) :=
   finishClose_InvF (InvF.of_fcore (fcore_setEvent _) (i.emit2 rfl)) t
@@ -290,6 +290,94 @@ theorem startClose_InvF {a : ACfg} {s : St} (i : InvF a s) (t : ATid) (p : AProg
     innerStep_InvF (s := { s with evt := some false }) (by fr i) _
   fr h1
 
+theorem closeOnD2_InvF {a : ACfg} {s : St} (i : InvF a s) (p : AProg) : InvF a (closeOnD2 a s p) := by
+  unfold closeOnD2
+  have i1 : InvF a ((({ s with evt := some false } : St).setA .D2 .inSoup).setP .D2 p) := by fr i
+  simp only
+  split
+  · exact d2Return_InvF i1
+  · exact passInner_InvF i1 _
+
+/-! ### `gone2` is touched by nothing in the close sequence -/
+
+@[simp] theorem gone2_setEvent (s : St) : s.setEvent.gone2 = s.gone2 := by unfold St.setEvent; split <;> rfl
+@[simp] theorem gone2_cancel2 (s : St) (t : ATid) : (s.cancel2 t).gone2 = s.gone2 := by
+  unfold St.cancel2; split <;> try rfl
+  split <;> rfl
+
+theorem d2Return_gone2 (s : St) : (d2Return s).gone2 = s.gone2 := by
+  unfold d2Return
+  split
+  · split
+    · split <;> rfl
+    · rfl
+    · rfl
+  · rfl
+
+theorem finishClose_gone2 (a : ACfg) (s : St) (t : Sess.Tid) : (finishClose a s t).gone2 = s.gone2 := by
+  unfold finishClose
+  rw [d2Return_gone2, (innerStep_fields a _ _).1]
+
+theorem endCb_gone2 (a : ACfg) (s : St) (t : Sess.Tid) : (endCb a s t).gone2 = s.gone2 := by
+  unfold endCb
+  rw [finishClose_gone2, gone2_setEvent]; rfl
+
+theorem afterStop_gone2 (a : ACfg) (s : St) (t : Sess.Tid) : (afterStop a s t).gone2 = s.gone2 := by
+  unfold afterStop
+  simp only
+  split
+  · rw [finishClose_gone2, gone2_setEvent]
+  · split
+    · rfl
+    · rw [endCb_gone2]; rfl
+    · rw [endCb_gone2]; rfl
+
+theorem stopV2_gone2 (a : ACfg) (s : St) (t : Sess.Tid) : (stopV2 a s t).gone2 = s.gone2 := by
+  unfold stopV2
+  split
+  · show (s.cancel2 .V2).gone2 = s.gone2
+    simp
+  · exact afterStop_gone2 a s t
+
+theorem stopD2_gone2 (a : ACfg) (s : St) (t : Sess.Tid) : (stopD2 a s t).gone2 = s.gone2 := by
+  unfold stopD2
+  split
+  · show (s.cancel2 .D2).gone2 = s.gone2
+    simp
+  · rw [stopV2_gone2]
+
+theorem onSoupClose_gone2 (a : ACfg) (s : St) (t : Sess.Tid) : (onSoupClose a s t).gone2 = s.gone2 := by
+  unfold onSoupClose
+  split
+  · exact finishClose_gone2 a s t
+  · have key : ∀ s1 : St, s1.gone2 = s.gone2 →
+        (if s1.q2Closed = true then afterStop a s1 t else stopD2 a { s1 with q2Closed := true } t).gone2 = s.gone2 := by
+      intro s1 h1
+      split
+      · rw [afterStop_gone2, h1]
+      · rw [stopD2_gone2]; exact h1
+    exact key _ (by split <;> rfl)
+
+theorem construct_gone2 (a : ACfg) (s : St) : (construct a s).gone2 = s.gone2 := by
+  unfold construct
+  split
+  · simp only; split <;> rfl
+  · rfl
+
+theorem passInner_gone2 (a : ACfg) (s : St) (e : Sess.Ev) : (passInner a s e).gone2 = s.gone2 := by
+  unfold passInner
+  simp only
+  split
+  · rw [onSoupClose_gone2, construct_gone2, (innerStep_fields a _ _).1]
+  · rw [construct_gone2, (innerStep_fields a _ _).1]
+
+theorem closeOnD2_gone2 (a : ACfg) (s : St) (p : AProg) : (closeOnD2 a s p).gone2 = s.gone2 := by
+  unfold closeOnD2
+  simp only
+  split
+  · rw [d2Return_gone2]; rfl
+  · rw [passInner_gone2]; rfl
+
 /-! ### the steps that move values -/
 
 theorem taken2_append_true (g : List (Nat × Bool)) (v : Nat) :
@@ -329,6 +417,22 @@ theorem InvF.unhold {a : ACfg} {s : St} (i : InvF a s) :
   rw [← i.flow]
   simp
 
+/-- entering the message callback moves nothing else off the second queue (a callback that closes the session from inside runs the
+    close of the soup session in this very step: for it only `gone2` is stated here) -/
+theorem dispHandle2_q2_gone2 (a : ACfg) (s : St) (v : Nat) :
+    (a.msgBeh v ≠ .close → (dispHandle2 a s v).q2 = s.q2) ∧ (dispHandle2 a s v).gone2 = s.gone2 := by
+  unfold dispHandle2
+  split
+  · exact ⟨fun _ => rfl, rfl⟩
+  · exact ⟨fun _ => rfl, rfl⟩
+  · exact ⟨fun _ => rfl, rfl⟩
+  · rename_i hb
+    split
+    · exact ⟨fun _ => rfl, rfl⟩
+    · exact ⟨fun h => absurd hb h, closeOnD2_gone2 a s _⟩
+  · exact ⟨fun _ => rfl, rfl⟩
+  · exact ⟨fun _ => rfl, rfl⟩
+
 theorem dispHandle2_InvF {a : ACfg} {s : St} (i : InvF a s) (v : Nat) : InvF a (dispHandle2 a s v) := by
   unfold dispHandle2
   split
@@ -337,7 +441,7 @@ theorem dispHandle2_InvF {a : ACfg} {s : St} (i : InvF a s) (v : Nat) : InvF a (
   · exact InvF.of_fcore (s := s.emit2 (.msgRaise v)) rfl (i.emit2 rfl)
   · split
     · exact InvF.of_fcore (s := (s.emit2 (.closeRet (.handler v) .ok)).emit2 (.msgExit v)) rfl ((i.emit2 rfl).emit2 rfl)
-    · exact startClose_InvF i _ _
+    · exact closeOnD2_InvF i _
   · fr i
   · fr i
 
@@ -346,7 +450,7 @@ theorem handlerDone_InvF {a : ACfg} {s : St} (i : InvF a s) (t : ATid) (v : Nat)
   split
   · split
     · exact InvF.of_fcore (s := (s.emit2 (.closeRet (.handler v) .ok)).emit2 (.msgExit v)) rfl ((i.emit2 rfl).emit2 rfl)
-    · exact startClose_InvF i _ _
+    · exact closeOnD2_InvF i _
   · exact InvF.of_fcore (s := s.emit2 (.msgExit v)) rfl (i.emit2 rfl)
 
 theorem stepDisp2_InvF {a : ACfg} {s : St} (i : InvF a s) : InvF a (stepDisp2 a s) := by
@@ -375,11 +479,9 @@ theorem stepRun2_InvF {a : ACfg} {s : St} (i : InvF a s) (t : ATid) : InvF a (st
   · -- cancelled
     split
     · exact InvF.of_fcore (fcore_finish2 _ _) (i0.emit2 rfl)
-    · exact InvF.of_fcore (fcore_finish2 _ _) ((i0.emit2 rfl).emit2 rfl)
     · split
       · exact InvF.of_fcore (fcore_finish2 _ _) ((i0.emit2 rfl).emit2 rfl)
-      · exact startClose_InvF i0 _ _
-    · exact InvF.of_fcore (fcore_finish2 _ _) ((i0.emit2 rfl).emit2 rfl)
+      · exact closeOnD2_InvF i0 _
     · -- a cancelled receive: whatever the helper held goes back in front of the queue
       have i1 := i0.unhold
       split
@@ -395,11 +497,9 @@ theorem stepRun2_InvF {a : ACfg} {s : St} (i : InvF a s) (t : ATid) : InvF a (st
     · split
       · exact handlerDone_InvF i0 _ _
       · fr i0
-    · exact InvF.of_fcore (s := (s0.emit2 (.closeRet (.handler _) .ok)).emit2 (.msgExit _)) rfl ((i0.emit2 rfl).emit2 rfl)
     · split
       · exact InvF.of_fcore (s := s0.emit2 (.msgExit _)) rfl (i0.emit2 rfl)
       · fr i0
-    · exact InvF.of_fcore (fcore_finish2 _ _) ((i0.emit2 rfl).emit2 rfl)
     · -- the helper takes the head of the queue
       split
       · fr i0
@@ -455,12 +555,18 @@ theorem startRecv2_InvF {a : ACfg} {s : St} (i : InvF a s) (u : Nat) : InvF a (s
 
 theorem step_InvF {a : ACfg} {s : St} (i : InvF a s) (ev : Ev) : InvF a (step a s ev) := by
   cases ev with
-  | inner e => exact stepInner_InvF i e
+  | inner e =>
+    simp only [step]
+    split
+    · exact i
+    · exact stepInner_InvF i e
   | run t =>
     simp only [step]
     split
     · exact stepRun2_InvF i t
-    · exact i
+    · split
+      · exact stepInner_InvF (s := { s with imm2 := false }) (by fr i) _
+      · exact i
   | appClose u =>
     simp only [step]
     split
